@@ -135,4 +135,13 @@ META = {
           "Part B: every request kind x every protocol step x {reply lost, reply lost while unrelated user messages / unsolicited / stale responses keep the channel busy, link error, disable, remove association}: exactly one outcome, an error, within one response timeout of virtual time from the failure point (immediately for link error / disable). Part Q: queue-full and no-connection submissions fail at once; queued requests all resolve."),
     note="Shutdown while a user future is pending is not reachable (the future holds a channel handle); file reader terminal callbacks are not yet driven.",
  ),
+ "C17": dict(
+    engine="vh",
+    design_ref="5.17",
+    technique="runtime monitor over the master's request log in virtual time: scripted outstation (IIN1.7/IIN1.4 injection, silent attempts, unsolicited injection, reconnects), ordering / gating / exact back-off oracles",
+    text=("Randomized exploration of association configurations against a scripted outstation. M1: first DISABLE_UNSOLICITED precedes the first integrity poll precedes time sync precedes ENABLE_UNSOLICITED precedes periodic polls and keep-alives, per connection. "
+          "M2: after a reply carrying IIN1.7 the next request is the WRITE that clears it and integrity / enable are repeated before polls resume. M3: a data-bearing unsolicited response that arrives before the integrity poll has completed (also after a restart indication) is neither confirmed nor delivered to the read handler; empty ones are confirmed; after integrity they are delivered and confirmed. "
+          "M4: the k-th retry of an automatic task that times out is sent exactly response_timeout + min(retry_min * 2^(k-1), retry_max) after the previous attempt, and the delay returns to the minimum after a success."),
+    note="Back-off is observed for time-outs of one automatic task per scenario; IIN2-rejected tasks are not retried (checked only as absence of M1 violations).",
+ ),
 }
